@@ -572,6 +572,9 @@ func checkHistoricalLookup(r *sim.Run, b *chainBlock, post *types.State) {
 			if !stored || types.U32(len(blob)) != key.Length {
 				continue
 			}
+			if bytes.HasPrefix(blob, []byte("cycled-preimage")) {
+				r.Count(fmt.Sprintf("probe:cycled_preimage_entry_with_%d_slots", len(slots)), 1)
+			}
 			times := []types.TimeSlot{0, post.Tau, post.Tau + 1000}
 			for _, s := range slots {
 				times = append(times, s, s+1)
